@@ -161,6 +161,9 @@ func runC19(c *core.Ctx) {
 	c.Rule("C19.freshslot", freshSlotText, 6)
 	checkFreshSlot(c)
 
+	c.Rule("C19.infermemo", "schema inference infers each Go type once per call: in every recursive function of bindnode that takes a reflect.Type and accumulates a freshly spawned composite type into a TypeSystem, the Accumulate call is only reachable past the miss edge of a comma-ok lookup in a map keyed by that reflect.Type, and every path from the Accumulate to a return records the type in that map - so a Go type mentioned twice (two fields of one struct type, two []string fields) is not accumulated twice (TypeSystem.Accumulate panics on a duplicate name), and two different Go types are never merged by name", 4)
+	checkInferMemo(c)
+
 	c.Rule("C19.unwrap", "Unwrap returns Addr().Interface() of the reflect.Value held in the node (field val of _node / _nodeRepr), never of a copy", 1)
 	if fn := p.Func("node/bindnode", "", "Unwrap"); fn != nil {
 		for _, ret := range core.Returns(fn) {
@@ -327,4 +330,75 @@ func checkFreshSlot(c *core.Ctx) {
 		})
 	}
 
+}
+
+// checkInferMemo decides C19.infermemo.
+func checkInferMemo(c *core.Ctx) {
+	p := c.P
+	found := 0
+	for _, fn := range p.ModFns {
+		pk := core.FuncPkg(fn)
+		if pk == nil || core.RelPkg(pk.Path()) != "node/bindnode" || len(fn.Blocks) == 0 || fn.Synthetic != "" || fn.Parent() != nil {
+			continue
+		}
+		var typ *ssa.Parameter
+		for _, prm := range fn.Params {
+			if n := namedOfType(prm.Type()); n != nil && n.Obj().Pkg() != nil && n.Obj().Pkg().Path() == "reflect" && n.Obj().Name() == "Type" {
+				typ = prm
+			}
+		}
+		if typ == nil {
+			continue
+		}
+		selfRec := false
+		var accs []ssa.CallInstruction
+		for _, ci := range core.CallsR(fn) {
+			if ci.Common().StaticCallee() == fn {
+				selfRec = true
+			}
+			if core.IsMethod(ci, core.ModPath+"/schema", "TypeSystem", "Accumulate") {
+				// a type spawned in this activation (not the fixed prelude of scalar types a non-recursive entry adds)
+				fresh := false
+				for w := range core.BackSlice(ci.Common().Args[len(ci.Common().Args)-1], core.SliceOpts{}) {
+					if cl, ok := w.(*ssa.Call); ok {
+						if cal := cl.Call.StaticCallee(); cal != nil && core.FuncPkg(cal) != nil && core.RelPkg(core.FuncPkg(cal).Path()) == "schema" && strings.HasPrefix(cal.Name(), "Spawn") {
+							fresh = true
+						}
+					}
+				}
+				if fresh {
+					accs = append(accs, ci)
+				}
+			}
+		}
+		if !selfRec || len(accs) == 0 {
+			continue
+		}
+		rg := core.RegionOf(fn)
+		isKey := func(v ssa.Value) bool { return core.Strip(v) == ssa.Value(typ) || rg.Canon(v) == ssa.Value(typ) }
+		isGuard := func(ifi *ssa.If) bool {
+			cnd, _ := core.CondPolarity(ifi.Cond)
+			e, ok := rg.Canon(cnd).(*ssa.Extract)
+			if !ok || e.Index != 1 {
+				return false
+			}
+			lk, ok := e.Tuple.(*ssa.Lookup)
+			return ok && lk.CommaOk && isKey(lk.Index)
+		}
+		isRecord := func(in ssa.Instruction) bool {
+			mu, ok := in.(*ssa.MapUpdate)
+			return ok && isKey(mu.Key)
+		}
+		for i, acc := range accs {
+			found++
+			key := fmt.Sprintf("%s#accumulate%d", core.FuncKey(fn), i+1)
+			okG, path := guardedByBlocked(fn, nil, acc, nil, isGuard, nil)
+			c.Check(okG, key+"-memo", p.Pos(acc.Pos()), "behind a lookup of the Go type in the per-call memo", "a composite type is accumulated without first looking the Go type up in a map keyed by reflect.Type: a Go type mentioned twice in one inferred schema is accumulated twice and TypeSystem.Accumulate panics (duplicate type name)", p.Witness(path)...)
+			path2, reached := core.Reach(fn, acc, func(in ssa.Instruction) bool { _, isRet := in.(*ssa.Return); return isRet }, nil, isRecord)
+			c.Check(!reached, key+"-recorded", p.Pos(acc.Pos()), "recorded in the memo before returning", "the accumulated type is not recorded under its Go type on every path to a return: the next mention of the same Go type accumulates it again", p.Witness(path2)...)
+		}
+	}
+	if found == 0 {
+		c.Undecided("node/bindnode#schema-inference", "-", "no recursive function taking a reflect.Type and accumulating spawned types was found")
+	}
 }
